@@ -12,6 +12,7 @@ import PenneModel.Cli.Decide
 import PenneModel.Decls.Imports
 import PenneModel.Types.ValueType
 import PenneModel.Types.Agree
+import PenneModel.Gen.Address
 import PenneModel.Decls.Order
 import PenneModel.Types.Ops
 import PenneModel.Mut.Model
@@ -167,6 +168,51 @@ def synTokOf (w : String) : Option Syn.Tok :=
     some { kind := kind, text := unhexStr t, val := val, vt := vt }
   | _ => none
 
+def showLTy : Gen.Addr.LTy → String
+  | .int b => "i" ++ toString b
+  | .arr n e => "[" ++ toString n ++ " x " ++ showLTy e ++ "]"
+  | .zarr e => "[0 x " ++ showLTy e ++ "]"
+  | .ptr t => showLTy t ++ "*"
+  | .slice e => "{ [0 x " ++ showLTy e ++ "]*, i64 }"
+  | .struct i => "%T" ++ toString i
+  | .bad => "?"
+
+def showIdx : Option Nat → String
+  | none => "e"
+  | some k => "c" ++ toString k
+
+def showOp : Gen.Addr.Op → String
+  | .gep ty idx => "gep " ++ showLTy ty ++ " " ++ " ".intercalate (idx.map showIdx)
+  | .load ty => "load " ++ showLTy ty
+  | .ext0 ty => "ext0 " ++ showLTy ty
+
+def ustepOfSexp : Sexp → Option Types.Ty.UStep
+  | .atom "e" => some .elem
+  | .list [.atom "m", k] => k.toNat?.map .member
+  | _ => none
+
+def memberOfSexp : Sexp → Option (Nat × Nat × Types.Ty)
+  | .list [i, m, t] => do some ((← i.toNat?), (← m.toNat?), (← Types.tyOfSexp 32 t))
+  | _ => none
+
+/-- `(addr local|param <type> (<step>...) (<struct> <member> <type>)...)`: the instructions of `generate_storage_address` -/
+def addrOp : Sexp → String
+  | .list (.atom "addr" :: .atom kind :: t :: .list path :: members) =>
+    match Types.tyOfSexp 32 t, path.mapM ustepOfSexp, members.mapM memberOfSexp with
+    | some ty, some p, some tbl =>
+      let ms : Types.Ty.Members := fun i m => (tbl.find? (fun x => x.1 == i && x.2.1 == m)).map (·.2.2)
+      match Gen.Addr.elaborateG ms ty p with
+      | none => "noelab"
+      | some (steps, leaf) =>
+        let fs := Gen.Addr.lowerFields ms
+        let r := if kind == "param" then Gen.Addr.runT fs (Gen.Addr.lower ty) [] true steps
+                 else Gen.Addr.runT fs (.ptr (Gen.Addr.lower ty)) [some 0] false steps
+        match r with
+        | none => "illtyped leaf=" ++ showLTy (Gen.Addr.lower leaf)
+        | some (ops, a) => "; ".intercalate (ops.map showOp) ++ " => " ++ showLTy a ++ " leaf=" ++ showLTy (Gen.Addr.lower leaf)
+    | _, _, _ => "bad-request"
+  | _ => "bad-request"
+
 def handle (op payload : String) : String :=
   match op with
   | "C04" =>
@@ -294,6 +340,10 @@ def handle (op payload : String) : String :=
       | some p, some vt => toString (Types.legality p vt)
       | _, _ => "bad-request"
     | _ => "bad-request"
+  | "addr" =>
+    match Sexp.parse payload with
+    | some x => addrOp x
+    | none => "bad-request"
   | "agree" =>
     match Sexp.parse payload with
     | some (.list [.atom "agree", a, b]) =>
